@@ -332,7 +332,7 @@ def register_angle(name):
 
 def atom(kind, p):
     """An atom a with a**2 -> p (kind in {'sqrt', 'norm'}); the same argument yields the same atom."""
-    key = (kind, p.key())
+    key = ("sqrt", p.key())        # np.linalg.norm(v) and np.sqrt(v . v) are the same number: one atom per argument
     name = R.atoms.get(key)
     if name is None:
         name = "%s#%d" % (kind, len(R.atoms))
